@@ -520,6 +520,48 @@ func genVsShapes(r *Rng, n int, w *bufio.Writer) {
 	}
 }
 
+// generator "vmulti" (corpus): packets with 4, 5, 8 inputs, honest and with one non-last input corrupted
+func genVsMulti(r *Rng, n int, w *bufio.Writer) {
+	defer func() { vsForceNin = 0 }()
+	for i := 0; i < n; i++ {
+		vsKeyLog = nil
+		vsForceNin = []int{4, 5, 8}[i%3]
+		c, spends := genHonest(r)
+		c.idx = (i / 3) % (vsForceNin - 1)
+		var b sb
+		c.writePacket(&b)
+		c = parseVs(trimSp(b.String()))
+		if i%2 == 0 {
+			corruptKind(r, c, spends, []int{0, 5, 17, 18}[(i/2)%4])
+		}
+		c.attachPrivs()
+		fmt.Fprintln(w, c.line())
+	}
+}
+
+// generator "vreenc" (corpus): key-hash templates, stated key re-encoded (uncompressed / hybrid), signature untouched
+func genVsReenc(r *Rng, n int, w *bufio.Writer) {
+	defer func() { vsForceNin, vsForceTpl = 0, -1 }()
+	for i := 0; i < n; i++ {
+		vsKeyLog = nil
+		vsForceNin = 1
+		vsForceTpl = []int{tplP2PKH, tplP2WPKH, tplP2SHP2WPKH}[i%3]
+		c, _ := genHonest(r)
+		s := c.ins[0].sigs[0]
+		pk, err := btcec.ParsePubKey(s.pub)
+		if err != nil {
+			continue
+		}
+		if len(s.pub) == 33 {
+			s.pub = reencodeKey(pk, []int{4, 6}[(i/3)%2])
+		} else {
+			s.pub = pk.SerializeCompressed()
+		}
+		c.attachPrivs()
+		fmt.Fprintln(w, c.line())
+	}
+}
+
 func runVs(t *Toks) string {
 	c := readVs(t)
 	if c.ver == 2 {
@@ -581,6 +623,15 @@ func genKey(r *Rng) *vsKey {
 		vsKeyLog = append(vsKeyLog, k)
 		return k
 	}
+}
+
+// reencodeKey: the same point as 65-byte uncompressed (form 4) or hybrid (form 6: prefix 06/07 by the parity of y)
+func reencodeKey(pk *btcec.PublicKey, form int) []byte {
+	u := pk.SerializeUncompressed()
+	if form == 6 {
+		u[0] = 6 | (u[64] & 1)
+	}
+	return u
 }
 
 // ---------- digests ----------
@@ -719,17 +770,33 @@ var vsHashTypes = []byte{1, 1, 1, 2, 3, 0x81, 0x82, 0x83, 0x41, 0x43, 0xc1, 0xc2
 
 // genHonest builds a packet in which every input is honestly signed.
 // utxoForm: 0 = non-witness only, 1 = witness only, 2 = both.
+// vsForceNin / vsForceTpl pin the number of inputs / the template (corpus generators only)
+var vsForceNin, vsForceTpl = 0, -1
+
 func genHonest(r *Rng) (*vsCase, []*vsSpend) {
 	c := &vsCase{ver: r.Pick(0, 2)}
 	nin := r.Pick(1, 1, 2, 2, 3)
+	if r.Chance(8) {
+		nin = r.Pick(4, 4, 5, 8) // packets large enough for any batched / concurrent validation path
+	}
+	if vsForceNin > 0 {
+		nin = vsForceNin
+	}
 	c.idx = r.Intn(nin)
+	if nin >= 4 && r.Chance(70) {
+		c.idx = r.Intn(nin - 1) // the input that gets corrupted is mostly not the last one
+	}
 	c.tx = &transaction.Transaction{Version: int32(r.Pick(2, 2, 1, 3)), Locktime: uint32(r.U64())}
 	if c.ver == 2 && c.tx.Version < 2 {
 		c.tx.Version = 2
 	}
 	var spends []*vsSpend
 	for k := 0; k < nin; k++ {
-		sp := genSpend(r, r.Intn(nTemplates))
+		tpl := r.Intn(nTemplates)
+		if vsForceTpl >= 0 {
+			tpl = vsForceTpl
+		}
+		sp := genSpend(r, tpl)
 		spends = append(spends, sp)
 		in := &vsIn{}
 		segwit := sp.algo == 1
@@ -991,7 +1058,7 @@ func corruptKind(r *Rng, c *vsCase, spends []*vsSpend, kind int) (name string) {
 		pk, err := btcec.ParsePubKey(s.pub)
 		if err == nil {
 			if len(s.pub) == 33 {
-				s.pub = pk.SerializeUncompressed()
+				s.pub = reencodeKey(pk, r.Pick(4, 4, 6))
 			} else {
 				s.pub = pk.SerializeCompressed()
 			}
@@ -1432,6 +1499,8 @@ func init() {
 	gens["vhist"] = genVhCases
 	runs["vhist"] = runVh
 	gens["vshapes"] = genVsShapes
+	gens["vmulti"] = genVsMulti
+	gens["vreenc"] = genVsReenc
 	gens["disasm"] = genDisasmCases
 	runs["disasm"] = runDisasm
 }
